@@ -462,6 +462,10 @@ def fileLevel (c : Call) : Nat → Bytes → (St → St) → St → Outcome × S
       parseMany { table := c.table, noEcho := c.noEcho, cmdLine := c.cmdLineFlag, throwing := c.throwing,
                   onFile := fileLevel c n } (fileLines f.2) st
 
+/-- the configuration the lines of an option file are parsed with when `n` more nesting levels are allowed -/
+def Call.cfgFile (c : Call) (n : Nat) : Cfg :=
+  { table := c.table, noEcho := c.noEcho, cmdLine := c.cmdLineFlag, throwing := c.throwing, onFile := fileLevel c n }
+
 /-- `if (nesting > 32) MP_RAISE(...)` -/
 def maxFileDepth : Nat := 32
 
